@@ -133,3 +133,31 @@ Fixpoint queue_match (model observed : list reply) : bool :=
   | x :: r, y :: r' => reply_match x y && queue_match r r'
   | _, _ => false
   end.
+
+(* SUBSCRIBE with k > 1 channels: the code answers one flat array of 3k elements, Redis answers
+   k arrays of 3.  The property does not fix the framing of the confirmation either: a flat
+   array of confirmation triples is read as the sequence of its triples. *)
+Fixpoint split_confirms (l : list reply) : option (list reply) :=
+  match l with
+  | [] => Some []
+  | RBulk t :: RBulk ch :: RInt n :: r =>
+    if bytes_eqb t sub_tag then
+      match split_confirms r with
+      | Some cs => Some (RArr [RBulk t; RBulk ch; RInt n] :: cs)
+      | None => None
+      end
+    else None
+  | _ => None
+  end.
+
+Definition normalize_obs (r : reply) : list reply :=
+  match r with
+  | RArr l => match split_confirms l with
+              | Some (c1 :: c2 :: cs) => c1 :: c2 :: cs
+              | _ => [r]
+              end
+  | _ => [r]
+  end.
+
+Definition observed_match (model observed : list reply) : bool :=
+  queue_match model (flat_map normalize_obs observed).
